@@ -194,9 +194,9 @@ def _estimate_times(
     )
     # multiply wts by lagtime
     if return_list:
-        return np.repeat(
+        return np.sort(np.repeat(
             list(ts.keys()), list(ts.values()),
-        ) * lagtime
+        )) * lagtime
 
     maxtime = max(ts.keys())
     pts = np.zeros(maxtime + 1)
